@@ -6,4 +6,4 @@ NONTRIVIAL = {"C01": ["dec_ok", "key_creations"], "C02": ["faulted_ops", "key_cr
               "C09": ["key_creations", "faulted_ops", "metastore_reads"], "C10": ["metastore_reads", "dec_ok"], "C20": ["enc_ok", "dec_ok"]}
 
 def run(ctx):
-    return envelope.run(ctx, "C01", ["AsherahVerif.Props.C01"], NONTRIVIAL["C01"], modes=(('boundaries',), ('allboundaries', 'faults')))
+    return envelope.run(ctx, "C01", ["AsherahVerif.Props.C01", "AsherahVerif.Props.Compose"], NONTRIVIAL["C01"], modes=(('boundaries',), ('allboundaries', 'faults')))
